@@ -384,7 +384,25 @@ def check_lazy(case, violations, counters):
             if res > bound:
                 violations.append({'kind': 'does-not-solve', 'case': case, 'detail': f'rhs e{j}: ||A z - y|| = {res:.3g} > bound {bound:.3g} (cond {cond:.3g}); z = {z}'})
                 return
-        counters['solves'] += n
+        # right-hand sides of other magnitudes and shapes: so small that squared entries underflow, large, and dense
+        tiny = 1e-30 if D == jnp.float32 else 1e-170
+        extra = [(tiny, 0), (tiny, n - 1), (-tiny, None), (1e6, 0), (3.0, None)]
+        for scale, j in extra:
+            y = np.full(n, scale) if j is None else np.zeros(n)
+            if j is not None:
+                y[j] = scale
+            yq = P.flat(P.unflat(y, op.in_structure()))     # the right-hand side as the data dtype holds it
+            z = P.flat(P.lib('inverse.mv', inv.mv, P.unflat(y, op.in_structure())))
+            ny = float(np.linalg.norm(yq))
+            if not np.all(np.isfinite(z)):
+                violations.append({'kind': 'nonfinite-solution', 'case': case, 'detail': f'right-hand side {scale:g} * {"ones" if j is None else f"e{j}"} (norm {ny:.3g}): {z}'})
+                return
+            res = float(np.linalg.norm(M @ z - yq))
+            bound = 10 * (atol + rtol * ny) + 50 * eps * cond * ny
+            if res > bound:
+                violations.append({'kind': 'does-not-solve', 'case': case, 'detail': f'right-hand side {scale:g} * {"ones" if j is None else f"e{j}"}: ||A z - y|| = {res:.3g} > bound {bound:.3g} (cond {cond:.3g})'})
+                return
+        counters['solves'] += n + len(extra)
         counters['worst_residual_permille_of_bound'] = max(counters['worst_residual_permille_of_bound'], int(1000 * worst))
         Ai = np.asarray(P.lib('inverse.as_matrix', inv.as_matrix), float)
         ref = np.linalg.inv(M)
